@@ -39,6 +39,7 @@ type Engine struct {
 	repoDir   string
 	srcCache  map[string][]byte
 	canon     map[string]string
+	reLits    map[string]string
 }
 
 func (e *Engine) note(format string, args ...interface{}) {
